@@ -28,6 +28,35 @@ type Scan struct {
 	IsJoin  bool     `json:"is_join,omitempty"`
 	Bounds  []Bound  `json:"bounds"`
 	Unknown []string `json:"unknown,omitempty"` // predicates on a time column that were not understood (infrastructure)
+	Phase   []string `json:"phase,omitempty"`   // `timestamp_ms % step ...` filters (only ever narrow the read)
+	InJoinBlock bool `json:"in_join_block,omitempty"` // the block has JOIN / ARRAY JOIN clauses
+}
+
+// isPhaseFilter recognises processHints' `timestamp_ms % step = 0 OR timestamp_ms % step >= step - range`: a further
+// restriction inside the window, not a window bound.
+func isPhaseFilter(e chsql.Expr) bool {
+	f, ok := e.(*chsql.FuncCall)
+	if !ok {
+		return false
+	}
+	if f.Name == "or" || f.Name == "and" {
+		for _, a := range f.Args {
+			if !isPhaseFilter(a) {
+				return false
+			}
+		}
+		return len(f.Args) > 0
+	}
+	if _, ok := opName[f.Name]; ok && len(f.Args) == 2 {
+		m, ok := f.Args[0].(*chsql.FuncCall)
+		if !ok || m.Name != "modulo" || len(m.Args) != 2 {
+			return false
+		}
+		_, isNum := litNum(f.Args[1])
+		_, isNum2 := litNum(m.Args[1])
+		return isNum && isNum2
+	}
+	return false
 }
 
 func flattenAnd(e chsql.Expr, out *[]chsql.Expr) {
@@ -133,6 +162,7 @@ var opName = map[string]string{"greaterOrEquals": "ge", "greater": "gt", "less":
 // analyseScan extracts the bounds of one base-table reference.
 func analyseScan(ref *chsql.TableRef) Scan {
 	sc := Scan{Table: baseTable(ref.Table.Table), Raw: ref.Table.Table, Alias: ref.Table.Alias, IsJoin: ref.IsJoin}
+	sc.InJoinBlock = ref.Select != nil && len(ref.Select.Joins) > 0
 	var conj []chsql.Expr
 	flattenAnd(ref.Prewhere, &conj)
 	flattenAnd(ref.Where, &conj)
@@ -226,6 +256,10 @@ func analyseScan(ref *chsql.TableRef) Scan {
 			sc.Bounds = append(sc.Bounds, Bound{Col: "type", Op: "in", Set: set, Text: c.String()})
 			continue
 		}
+		if isPhaseFilter(c) {
+			sc.Phase = append(sc.Phase, c.String())
+			continue
+		}
 		if mentionsTimeCol(c, ref) && !ref.IsJoin {
 			sc.Unknown = append(sc.Unknown, c.String())
 		}
@@ -297,6 +331,10 @@ func baseCands(v int64, bucket int64) []cand {
 	sec := floorTo(v, secNs)
 	cs := []cand{{"none", v}, {"sec", sec}, {"ms", floorTo(v, 1e6)}, {"s15:floor", floorTo(sec, s15Ns)}, {"s15:ceilp", ceilTo(sec, s15Ns)}, {"s15:ceilx", floorTo(sec, s15Ns) + s15Ns}}
 	if bucket > 0 {
+		// time.Time.Truncate rounds relative to the zero time (year 1), not to the Unix epoch
+		tt := time.Unix(0, sec).Truncate(time.Duration(bucket)).UnixNano()
+		cs = append(cs, cand{"bucket:floor", tt}, cand{"bucket:ceilx", tt + bucket})
+		cs = append(cs, cand{"bucket:floor", floorTo(tt, s15Ns)}, cand{"bucket:ceilx", floorTo(tt+bucket, s15Ns)})
 		cs = append(cs, cand{"bucket:floor", floorTo(sec, bucket)}, cand{"bucket:ceilp", ceilTo(sec, bucket)}, cand{"bucket:ceilx", floorTo(sec, bucket) + bucket})
 		cs = append(cs, cand{"bucket:floor", floorTo(floorTo(sec, bucket), s15Ns)}, cand{"bucket:ceilx", floorTo(floorTo(sec, bucket)+bucket, s15Ns)})
 	}
@@ -307,7 +345,7 @@ func baseCands(v int64, bucket int64) []cand {
 // "hi": from End.
 func tsLabels(n int64, ep *Endpoint, w Win) []string {
 	set := map[string]bool{}
-	for _, c := range baseCands(w.Start, int64(ep.Bucket)) {
+	for _, c := range baseCands(effStart(ep, w), int64(ep.Bucket)) {
 		if c.Val-int64(ep.Lookback) == n {
 			set["from:"+c.Label] = true
 		}
@@ -322,7 +360,7 @@ func tsLabels(n int64, ep *Endpoint, w Win) []string {
 
 func dateLabels(day int64, ep *Endpoint, w Win) []string {
 	set := map[string]bool{}
-	for _, c := range baseCands(w.Start, int64(ep.Bucket)) {
+	for _, c := range baseCands(effStart(ep, w), int64(ep.Bucket)) {
 		b := c.Val - int64(ep.Lookback)
 		if utcDay(b-m30Ns) == day {
 			set["utcFromM30"] = true
@@ -352,6 +390,13 @@ func dateLabels(day int64, ep *Endpoint, w Win) []string {
 		}
 	}
 	return keys(set)
+}
+
+func effStart(ep *Endpoint, w Win) int64 {
+	if ep.Instant {
+		return w.End
+	}
+	return w.Start
 }
 
 func keys(m map[string]bool) []string {
